@@ -598,6 +598,46 @@ pub fn limit(rng: &mut Rng) -> Option<usize> {
     *rng.pick(&[None, None, Some(0), Some(0), Some(1), Some(2), Some(3), Some(9), Some(10), Some(11), Some(25)])
 }
 
+/// a structured alternate-screen excursion with resizes in between: enter (47/1047/1049), optional
+/// output, one or two resizes (same width or not, taller / shorter), cursor parked on a row chosen
+/// relative to the OLD and NEW heights, then leave with any of the three mode numbers
+pub fn excursion(rng: &mut Rng, ctx: &mut Ctx, p: &Profile) -> Vec<Op> {
+    let mut ops = Vec::new();
+    let modes = ["47", "1047", "1049"];
+    ops.push(Op::Str(format!("\x1b[?{}h", rng.pick(&modes))));
+    if rng.chance(50) {
+        ops.push(Op::Str(token(rng, ctx, K_TEXT)));
+    }
+    let (old_c, old_r) = (ctx.cols, ctx.rows);
+    for _ in 0..rng.range(1, 2) {
+        let c = if rng.chance(50) { ctx.cols } else { rng.range(1, p.max_cols + 3) };
+        let r = match rng.below(4) {
+            0 => ctx.rows,
+            1 => ctx.rows + rng.range(1, 3),
+            2 => (ctx.rows.saturating_sub(rng.range(1, 2))).max(1),
+            _ => rng.range(1, p.max_rows + 2),
+        };
+        ops.push(Op::Resize(c, r));
+        ctx.cols = c;
+        ctx.rows = r;
+        if rng.chance(70) {
+            // 1-based row candidates around the old and new heights
+            let row = *rng.pick(&[old_r + 1, old_r, old_r.saturating_sub(1).max(1), ctx.rows, 1, ctx.rows.saturating_sub(1).max(1)]);
+            let col = *rng.pick(&[1, old_c, old_c + 1, ctx.cols, ctx.cols.saturating_sub(1).max(1)]);
+            ops.push(Op::Str(format!("\x1b[{};{}H", row, col)));
+            if rng.chance(30) {
+                ops.push(Op::Str("x".into()));
+            }
+        }
+        if rng.chance(30) {
+            let k = rng.weighted(&p.weights);
+            ops.push(Op::Str(token(rng, ctx, k)));
+        }
+    }
+    ops.push(Op::Str(format!("\x1b[?{}l", rng.pick(&modes))));
+    ops
+}
+
 pub fn gen_case(rng: &mut Rng, p: &Profile) -> Case {
     let (cols, rows) = geometry(rng, p);
     let limit = limit(rng);
@@ -608,7 +648,10 @@ pub fn gen_case(rng: &mut Rng, p: &Profile) -> Case {
     }
     let n = rng.range(p.len.0, p.len.1);
     for _ in 0..n {
-        if rng.chance(p.resize_pct) {
+        if p.resize_pct > 0 && rng.chance(if p.name == "alt" { 6 } else { 2 }) {
+            let ex = excursion(rng, &mut ctx, p);
+            ops.extend(ex);
+        } else if rng.chance(p.resize_pct) {
             let (c, r) = match rng.below(6) {
                 0 => (ctx.cols, rng.range(1, p.max_rows + 2)),
                 1 => (rng.range(1, p.max_cols + 3), ctx.rows),
